@@ -835,14 +835,14 @@ class Interp:
                 return False
             if a is True and b is True:
                 return True
-            return None
+            return self.refute(st, pred) if deep else None
         if k == 'or':
             a, b = self.decide(st, pred[1], deep), self.decide(st, pred[2], deep)
             if a is True or b is True:
                 return True
             if a is False and b is False:
                 return False
-            return None
+            return self.refute(st, pred) if deep else None
         if k == 'cmp':
             op, a, b = pred[1], pred[2], pred[3]
             lo, hi = st.num.rng2(a.sub(b)) if deep else st.num.rng(a.sub(b))
@@ -872,6 +872,18 @@ class Interp:
             if op == 'ne':
                 r = self.decide(st, ('cmp', 'eq', a, b), deep)
                 return None if r is None else (not r)
+        return None
+
+    def refute(self, st: State, pred):
+        """decide a compound predicate whose parts are undecided one by one: it holds if its negation is infeasible
+        on this path (a disjunction entailed by a relational fact, e.g. h | m | s != 0), and conversely"""
+        try:
+            if not self.assume(st.copy(), pred, False):
+                return True
+            if not self.assume(st.copy(), pred, True):
+                return False
+        except (AnalysisIncomplete, Infeasible):
+            return None
         return None
 
     def float_pred_desc(self, p):
@@ -1210,6 +1222,26 @@ class Interp:
                     return self.fresh_int(st, ty, 'and', 0, b.form.c)
                 if op in ('Shr', 'ShrUnchecked') and b.form.is_const() and la >= 0:
                     return self.fresh_int(st, ty, 'shr', la >> b.form.c, ha >> b.form.c)
+                lb, hb = st.num.rng(b.form)
+                if op in ('BitOr', 'BitXor', 'BitAnd') and la >= 0 and lb >= 0:
+                    # non-negative operands: max(a, b) <= a | b <= a + b ;  a ^ b <= a + b ;  a & b <= min(a, b)
+                    tlo, thi = self.irange(ty)
+                    sym = SYMTAB.opaque(op.lower(), (a.form.key(), b.form.key()), 0, thi)
+                    r = Form.sym(sym)
+                    n = st.num
+                    try:
+                        if op == 'BitOr':
+                            n.add_fact(a.form.sub(r))
+                            n.add_fact(b.form.sub(r))
+                            n.add_fact(r.sub(a.form).sub(b.form))
+                        elif op == 'BitXor':
+                            n.add_fact(r.sub(a.form).sub(b.form))
+                        else:
+                            n.add_fact(r.sub(a.form))
+                            n.add_fact(r.sub(b.form))
+                    except Infeasible:
+                        pass
+                    return VInt(r, ty)
                 return self.top(st, ty, 'bit')
             if op == 'Cmp':
                 return self.models.ordering(self, st, a.form, b.form)
